@@ -10,7 +10,7 @@ from .build import Build, FieldInfo, MsgInfo
 from .spec import Record
 
 LEGAL = ["permute", "pack_toggle", "chunk_split", "pad_value", "pad_packed", "pad_len", "pad_tag", "dup_scalar",
-         "dup_oneof", "unknown_interleave"]
+         "dup_oneof", "oneof_alternate", "unknown_interleave"]
 
 
 def _entry_info(fi: FieldInfo) -> MsgInfo:
@@ -269,6 +269,53 @@ class WireGen:
             extra = self._other_payload(o.kind, fake)
         raws = [x.raw for x in recs]
         raws.insert(self.rng.randint(0, i), extra)
+        return b"".join(raws), True
+
+    def _op_oneof_alternate(self, mi, fields, recs):
+        # several occurrences of members of ONE oneof in alternation before the selected one (X Y X, Y X Y X ...): the last
+        # record on the wire wins.  A message-typed member occurs at most once (two occurrences would be merged by the
+        # reference, which is outside the property's list).
+        cands = []
+        for i, r in enumerate(recs):
+            fi = fields.get(r.number)
+            if fi is not None and fi.label == "oneof" and len(mi.oneofs.get(fi.group, [])) >= 2:
+                cands.append(i)
+        if not cands:
+            return b"".join(r.raw for r in recs), False
+        i = self.rng.choice(cands)
+        sel = fields[recs[i].number]
+        members = [fields[n] for n in mi.oneofs[sel.group]]
+        extras, used_msg = [], {sel.number} if sel.kind == "message" else set()
+        prev = None
+        for _ in range(self.rng.choice([2, 2, 3, 4])):
+            pool = [m for m in members if m.number != prev and m.number not in used_msg]
+            if not pool:
+                break
+            # the record right before the selected one is preferably another member, the one before that the selected one
+            m = self.rng.choice(pool)
+            if m.kind == "message":
+                used_msg.add(m.number)
+                extras.append(spec.enc_record(m.number, spec.WT_LEN, b""))
+            else:
+                fake = Record(m.number, spec.wire_type_of(m.kind), None, b"", 0, 0, 0)
+                extras.append(self._other_payload(m.kind, fake))
+            prev = m.number
+        if len(extras) < 2:
+            return b"".join(r.raw for r in recs), False
+        if sel.kind != "message" and self.rng.random() < 0.6:
+            # force the shape  X ... Y ... X(original)
+            fake = Record(sel.number, spec.wire_type_of(sel.kind), None, b"", 0, 0, 0)
+            extras[0] = self._other_payload(sel.kind, fake)
+            others = [m for m in members if m.number != sel.number and m.number not in (used_msg - {sel.number})]
+            if others:
+                o = self.rng.choice(others)
+                extras[1] = (spec.enc_record(o.number, spec.WT_LEN, b"") if o.kind == "message"
+                             else self._other_payload(o.kind, Record(o.number, spec.wire_type_of(o.kind), None, b"", 0, 0, 0)))
+                extras = extras[:2]
+        raws = [x.raw for x in recs]
+        positions = sorted(self.rng.randint(0, i) for _ in extras)
+        for k, (pos, ex) in enumerate(zip(positions, extras)):
+            raws.insert(pos + k, ex)
         return b"".join(raws), True
 
     def unknown_record(self, known: set) -> bytes:
